@@ -150,6 +150,26 @@ func zzC03_alloc() {
 	vReach("C03_alloc")
 }
 
+// zzC03_midlen: the declared lengths zzC03_alloc leaves out: a complete header declaring ml in
+// (20+k, limit], followed by only k body bytes. Every such ml is enumerated (it decides which read
+// buffer is used: pooled up to MessageBufferLength, allocated above); the other header bytes are symbolic.
+func zzC03_midlen() {
+	k := vLen("k", 0, vParam("K", 1))
+	limit := 64*(20+k) + 4096 + 2*MessageBufferLength
+	ml := vLen("ml", 20+k+1, limit)
+	b := vBytes("b", 20+k)
+	b[1], b[2], b[3] = byte(ml>>16), byte(ml>>8), byte(ml)
+	d := vAbstractDict()
+	vNoPanic()
+	// (here the claimed length is itself within the tolerated bound, so the read buffer may take up to
+	// `limit` bytes on top of the pooled buffers)
+	vAllocLimit(2 * limit)
+	m, err := ReadMessage(zzNewReader(b), d)
+	vAllocCheck()
+	vAssert(m == nil && err != nil, "a message cut short is an error, never a message")
+	vReach("C03_midlen")
+}
+
 // zzC03_pretty_helpers: the pure display helpers that the message-level harnesses summarise
 // (boolToSymbol, appIdToString, flagsToString) executed in isolation on every input.
 func zzC03_pretty_helpers() {
